@@ -220,7 +220,7 @@ void fmt_run(const fcase_t *c, fres_t *x, int want_ref, int guard) {
             long long v = IVALS[d->vsel % NIV];
             switch (d->len) {
             case LEN_L: case LEN_Z: case LEN_T: case LEN_J: PUSH(ffi_type_slong, l, (long)v); break;
-            case LEN_LL: PUSH(ffi_type_sint64, ll, v); break;
+            case LEN_LL: case LEN_BIGL: PUSH(ffi_type_sint64, ll, v); break;
             default: PUSH(ffi_type_sint, i, (int)v); break;
             }
             break;
@@ -432,7 +432,7 @@ void fmt_gen_dir(cs_t *cs, fdir_t *d, int kind, int allow_n, int floats, int wid
         else if (w < 8) d->prec = (int16_t)cs_range(cs, 100, 260);
         else { d->prec = -2; d->pstar = (int16_t)cs_range(cs, -3, 40); }
     }
-    if (strchr("diuxXon", d->conv)) d->len = (uint8_t)cs_range(cs, 0, 7);
+    if (strchr("diuxXon", d->conv)) { d->len = (uint8_t)cs_range(cs, 0, 7); if (cs_range(cs, 0, 15) == 0) d->len = LEN_BIGL; /* "%Ld": invalid in ISO C, a glibc synonym of ll; the library rejects it */ }
     else if (strchr("fFeEgG", d->conv)) d->len = cs_range(cs, 0, 3) == 0 ? LEN_BIGL : LEN_NONE;
     if (d->conv == 'c' || d->conv == 'C') { d->prec = -1; d->flags &= 1; }
     if (allow_n && d->conv == 'n' && cs_range(cs, 0, 7) == 0) d->flags |= cs_range(cs, 0, 1) ? 32 : 64;
